@@ -155,6 +155,17 @@ func genC02(g *Gen) {
 			if g.R.Pct(70) {
 				g.alignedChunks(&cp)
 			}
+			if ci == 1 && g.R.Pct(50) {
+				// the second client only arrives when the first one is done and gone: same descriptor number, same message lengths
+				cp.StartAfterClient = 1
+				cp.StartStep = 0
+				p.Clients[0].CloseAfterReplies = len(p.Clients[0].Reqs)
+				tot := 0
+				for _, r := range p.Clients[0].Reqs {
+					tot += len(r.Raw)
+				}
+				p.Clients[0].CloseAfterSent = tot
+			}
 			p.Clients = append(p.Clients, cp)
 		}
 		return
@@ -682,6 +693,29 @@ func genC07(g *Gen) {
 	}
 	p.Sched.WRelease = 2 // hold replies back longer so that arrival orders vary
 	p.Sched.ChunkPct = 50
+	if p.Variant == "reuse" {
+		// a client that walks away right after sending (its requests are in flight, their objects get recycled), followed by the
+		// clients with the split requests: the merges must not pick up anything of the departed client's late replies
+		gone := ClientPlan{Addr: clientAddr(len(p.Clients)), Mode: "pipeline", CloseAfterReplies: 0, CloseRst: g.R.Pct(50), StartStep: 0}
+		for ri, n := 0, g.R.Range(1, 6); ri < n; ri++ {
+			tok := Tok(len(p.Clients), ri)
+			if g.R.Pct(40) {
+				gone.Reqs = append(gone.Reqs, g.randomSplit(tok, 4, 0))
+			} else {
+				gone.Reqs = append(gone.Reqs, g.randomSingle(tok, -1))
+			}
+		}
+		total := 0
+		for _, r := range gone.Reqs {
+			total += len(r.Raw)
+		}
+		gone.CloseAfterSent = total
+		p.Clients = append(p.Clients, gone)
+		for ci := 0; ci < len(p.Clients)-1; ci++ {
+			p.Clients[ci].StartAfterClient = len(p.Clients)
+			p.Clients[ci].StartStep = 0
+		}
+	}
 }
 
 func checkC07(d *Driver, res *Result) {
@@ -750,6 +784,13 @@ func genC08(g *Gen) {
 	if cutPos >= 0 {
 		n = g.R.Range(2, 6)
 	}
+	if p.Variant == "deep" {
+		// hundreds of small requests in very few segments: far more requests in flight from one client than any internal
+		// per-connection limit, with the rest of the pipeline already buffered
+		n = g.R.Range(130, 420)
+		p.Proxy.BufCap = 65536
+		p.Sched.MaxSteps = 20000
+	}
 	cmds := LoadDocCommands().SingleKeyCmds()
 	for ri := 0; ri < n; ri++ {
 		tok := Tok(0, ri)
@@ -758,7 +799,7 @@ func genC08(g *Gen) {
 			cp.Reqs = append(cp.Reqs, g.randomLocal(tok, ""))
 		case g.R.Pct(25):
 			cp.Reqs = append(cp.Reqs, g.bigSplit(tok, 5))
-		case g.R.Pct(3) && cutPos < 0:
+		case g.R.Pct(3) && cutPos < 0 && p.Variant != "deep":
 			cp.Reqs = append(cp.Reqs, g.Single(tok, "set", Key(tok, 0, -1, ""), strings.Repeat("L", g.R.Range(131072, 200000))))
 		default:
 			cp.Reqs = append(cp.Reqs, g.fullSingle(tok, g.R.Pick(cmds), -1, "", 300))
@@ -769,6 +810,18 @@ func genC08(g *Gen) {
 		total += len(r.Raw)
 	}
 	switch {
+	case p.Variant == "deep":
+		switch g.R.Intn(3) {
+		case 0:
+			cp.Chunks = []int{total} // everything in one segment
+		case 1:
+			a := g.R.Range(1, total-1)
+			cp.Chunks = []int{a, total - a}
+		default:
+			a := g.R.Range(1, total-2)
+			b := g.R.Range(1, total-a-1)
+			cp.Chunks = []int{a, b, total - a - b}
+		}
 	case p.Variant == "aligned":
 		// cuts related to the request boundaries and to each other: on a boundary, a few fixed distances before/after one, and
 		// at (start of a request + length of an earlier request). Equal leftover lengths, reads that end exactly on a boundary and
@@ -1042,6 +1095,10 @@ func checkC10(d *Driver, res *Result) {
 
 func init() {
 	register(&Profile{Name: "C19", Prop: "C19", Gen: func(g *Gen) {
+		if g.Plan.Variant == "aligned" {
+			genC02(g) // leftovers of equal lengths on one connection and across a recycled descriptor (see genC02 "aligned")
+			return
+		}
 		c02SizeCap = 6000
 		genC02(g)
 		c02SizeCap = 0
@@ -1059,7 +1116,7 @@ func init() {
 	}, Check: func(d *Driver, res *Result) {
 		d.StdReplyCheck("C19", Relax{})
 		d.checkRawPassThrough("C19")
-		res.Nontrivial = d.K.Stats.EAGAINWrite > 0 && d.K.Stats.ShortWrites > 0
+		res.Nontrivial = (d.K.Stats.EAGAINWrite > 0 && d.K.Stats.ShortWrites > 0) || d.P.Variant == "aligned"
 		res.Sample = fmt.Sprintf("%d clients (slow readers), %d requests, read buffer %d B, client send buffer %d B, backend send buffer %d B: %d blocked and %d short writes, %d short reads",
 			len(d.Clients), totalReqs(d), d.P.Proxy.BufCap, d.P.Kernel.ClientSndCap, d.P.Kernel.BackendSndCap, d.K.Stats.EAGAINWrite, d.K.Stats.ShortWrites, d.K.Stats.ShortReads)
 	}})
